@@ -94,13 +94,21 @@ theorem model_ecm : UsesEcmExits modelOracle :=
   ⟨by intro t n a b h; simp [modelOracle] at h, by intro t n a b h; simp [modelOracle] at h,
     by intro t n a b h; simp [modelOracle] at h⟩
 
+theorem model_squfof : UsesSqufofExit modelOracle := by
+  intro t n a b h; simp [modelOracle] at h
+
+theorem model_sieve_not_unexpected (t : Unit) (alg : Algo) (n d : Nat) :
+    (modelOracle.sieve t alg n).1 ≠ .unexpected d := by
+  intro h
+  simp only [modelOracle] at h
+  cases hf : Ymq.Relations.finalStep n [2] rels15 [[0, 1]] (fun _ => true) with
+  | error e => rw [hf] at h; simp [sieveOf] at h
+  | ok v => obtain ⟨slots, cnt, ds'⟩ := v; rw [hf] at h; simp [sieveOf] at h
+
+theorem model_unexpected : UsesUnexpectedFactor modelOracle :=
+  fun t alg n d h => absurd h (model_sieve_not_unexpected t alg n d)
+
 theorem model_residual : ResidualOK modelOracle where
-  squfof := by intro s n a b _ h; simp [modelOracle] at h
-  sieveUnexpected := by
-    intro s alg n d _ h
-    simp only [modelOracle] at h
-    cases hf : Ymq.Relations.finalStep n [2] rels15 [[0, 1]] (fun _ => true) with
-    | error e => rw [hf] at h; simp [sieveOf] at h
-    | ok v => obtain ⟨slots, cnt, ds'⟩ := v; rw [hf] at h; simp [sieveOf] at h
+  unexpectedNotWhole := fun s alg n d _ h => absurd h (model_sieve_not_unexpected s alg n d)
 
 end Ymq.Factor.Closed
